@@ -205,10 +205,10 @@ class Select(Harness):
             def pref(mat, **kw):
                 return mat[:, 0] - mat[:, 1]      # declared preference transformation: first objective minus second
             return EstimatedBreedingValueSubsetSelection(ntrait=2, unscale=True, ncross=self.params["ncross"], nparent=self.params["nparent"], nmating=1, nprogeny=1,
-                                                         nobj=2, ndset_wt=inp["ndwt"], ndset_trans=pref, ndset_trans_kwargs={},
+                                                         nobj=2, ndset_wt=inp["ndwt"], ndset_trans=pref, ndset_trans_kwargs={}, rng=inp["rng"],
                                                          moalgo=_stub_mo(inp["front"], numpy.array(self.params["front_decn"])))
         return EstimatedBreedingValueSubsetSelection(ntrait=1, unscale=True, ncross=self.params["ncross"], nparent=self.params["nparent"], nmating=1, nprogeny=1,
-                                                     nobj=1, obj_trans=T.trans_sum, soalgo=SortingSubsetOptimizationAlgorithm())
+                                                     nobj=1, obj_trans=T.trans_sum, soalgo=SortingSubsetOptimizationAlgorithm(), rng=inp["rng"])
 
     def call(self, inp, mk):
         from pybrops.popgen.bvmat.DenseBreedingValueMatrix import DenseBreedingValueMatrix
@@ -218,7 +218,7 @@ class Select(Harness):
         perm = list(self.params.get("perm", range(n)))
         raw = inp["raw"]
         saved = MX.global_prng
-        MX.global_prng = inp["rng"]          # select() builds its configuration with rng=None -> the global generator
+        MX.global_prng = inp["rng"]          # belt and braces: the configuration must use the protocol's generator (passed explicitly above)
         try:
             outs = []
             for p_ in ([list(range(n))] if mo else [list(range(n)), perm]):
